@@ -278,7 +278,7 @@ namespace avel {
 
         #if defined(AVEL_AVX512VL) || defined(AVEL_AVX10_1)
         auto mask = b << N;
-        return (decay(m) & ~mask) | mask;
+        return (decay(m) & ~(1u << N)) | mask;
 
         #elif defined(AVEL_AVX2)
         return mask8x32u{_mm256_insert_epi32(decay(m), b ? - 1 : 0, N)};
